@@ -30,7 +30,7 @@ ASSUMPTIONS = ['quiescent point = no transaction in progress, no open blob file,
 REQUIRED_COUNTERS = ('quiescent_checks', 'blob_files_compared', 'second_connection_blob_reads', 'failed_commits', 'undos', 'packs', 'committed_file_stability_checks')
 
 OPS = (['new'] * 4 + ['rewrite'] * 3 + ['append'] * 2 + ['edit', 'consume', 'plain'] + ['savepoint'] * 2 + ['rollback'] * 2 + ['commit'] * 5 +
-       ['abort'] * 2 + ['fail-conflict', 'fail-foreign', 'fail-foreign', 'fail-io'] + ['undo'] * 3 + ['pack'])
+       ['abort'] * 2 + ['fail-conflict', 'fail-foreign', 'fail-foreign', 'fail-io'] + ['undo'] * 3 + ['undo2'] * 2 + ['pack'])
 
 
 def shards(tier, seed):
@@ -394,52 +394,57 @@ def run_case(sh, s, d, case):
                 trace.append('fail(%s)' % what)
                 if not quiescent('after-failed-commit(%s)' % what) or not second_connection('after-failed-commit'):
                     return None
-            elif k == 'undo' and kind == 'file' and not pending:
+            elif k in ('undo', 'undo2') and kind == 'file' and not pending:
                 tm.abort()
                 del sp_stack[:]
                 info = [x for x in db.undoInfo(0, 5) if not str(x['description']).replace("b'", '').startswith('initial database creation')]
-                if not info:
+                if not info or (k == 'undo2' and len(info) < 2):
                     continue
-                u = rnd.choice(info)
                 import base64
-                utid = base64.decodebytes(u['id'] + b'\n')
+                if k == 'undo':
+                    us = [rnd.choice(info)]
+                else:
+                    j = rnd.randrange(len(info) - 1)
+                    us = [info[j], info[j + 1]]              # two consecutive transactions, newest first, undone in one transaction
+                utids = [base64.decodebytes(u['id'] + b'\n') for u in us]
                 tm.begin()
-                db.undo(u['id'], tm.get())
+                if k == 'undo':
+                    db.undo(us[0]['id'], tm.get())
+                else:
+                    db.undoMultiple([u['id'] for u in us], tm.get())
                 try:
                     tm.commit()
                 except UndoError:
                     tm.abort()
-                    trace.append('undo-refused')
+                    trace.append(k + '-refused')
                     if not quiescent('after-refused-undo'):
                         return None
                     continue
                 tid = st.lastTransaction()
-                # an undo must be refused when a later transaction changed what the undone one wrote: for blobs that is a later
-                # revision with other bytes (the records of all revisions of a blob are alike, the bytes are in the files)
+                # model, newest undone transaction first: a blob written by an undone transaction goes back to the revision before
+                # it; that is only possible when the undone revision is the blob's newest one not yet undone, or when the newer
+                # ones hold the same bytes - otherwise the undo had to be refused (the records of all revisions of a blob are
+                # alike, the bytes are in the files)
                 for name, oid in list(oid_of.items()):
                     revs = sorted(t for (o, t) in content_at if o == oid)
-                    if utid in revs and revs[-1] != utid and content_at[(oid, revs[-1])] != content_at[(oid, utid)] \
-                            and content_at[(oid, revs[-1])] is not None and content_at[(oid, utid)] is not None:
-                        sh.violation('c13:%s:undo-of-a-blob-change-accepted-although-a-later-transaction-rewrote-the-blob' % kind,
-                                     {'name': name, 'trace': trace[-20:], 'undone': utid, 'later': revs[-1]}, case)
-                        return None
-                # model: every blob written by the undone transaction goes back to its previous revision
-                for name, oid in list(oid_of.items()):
-                    revs = sorted(t for (o, t) in content_at if o == oid)
-                    if utid in revs:
+                    cur = revs[-1] if revs else None
+                    touched = False
+                    for utid in utids:
+                        if utid not in revs:
+                            continue
+                        if cur != utid and content_at[(oid, cur)] != content_at[(oid, utid)] \
+                                and content_at[(oid, cur)] is not None and content_at[(oid, utid)] is not None:
+                            sh.violation('c13:%s:undo-of-a-blob-change-accepted-although-a-later-transaction-rewrote-the-blob' % kind,
+                                         {'name': name, 'trace': trace[-20:], 'undone': utid, 'later': cur, 'op': k}, case)
+                            return None
                         prev = [t for t in revs if t < utid]
-                        if prev:
-                            committed[name] = content_at[(oid, prev[-1])]
-                            if committed[name] is not None:
-                                content_at[(oid, tid)] = committed[name]
-                        else:
-                            committed[name] = None          # creation undone
-                        if prev and content_at[(oid, prev[-1])] is None:
-                            committed[name] = None
-                        if committed[name] is None:
-                            content_at[(oid, tid)] = None    # un-creation marker
-                    elif (oid, utid) in content_at or True:
-                        pass
+                        cur = prev[-1] if prev else None
+                        touched = True
+                        if cur is None:
+                            break
+                    if touched:
+                        committed[name] = content_at[(oid, cur)] if cur is not None else None
+                        content_at[(oid, tid)] = committed[name]          # (None = un-creation marker)
                 # blobs re-created by undoing an undo of their creation
                 tm.begin()
                 for name in list(oid_of):
@@ -452,8 +457,10 @@ def run_case(sh, s, d, case):
                 names[:] = [n for n in names if committed.get(n) is not None]
                 tm.abort()
                 sh.count('undos')
+                if k == 'undo2':
+                    sh.count('multiple_undos')
                 feats.add('undo')
-                trace.append('undo')
+                trace.append(k)
                 if not quiescent('after-undo') or not second_connection('after-undo'):
                     return None
             elif k == 'pack' and not pending:
